@@ -218,6 +218,22 @@ def summarize(fn, max_visits=2, limit=20000, params=None):
     """all entry->exit path summaries of fn. `params`: {name: const} to specialise a call."""
     out = []
     count = [0]
+    # locals assigned inside each loop: widened to unknown when the head is re-entered
+    widen = {}
+    for head, body in C.loops(fn):
+        names = set()
+        for bid in body:
+            for e in fn.blocks[bid].elems:
+                t = C.store_target(e)
+                # counters: updated incrementally (x++, x += k, x = x + k)
+                if t is not None and t.k == "DeclRefExpr":
+                    incr = e.k == "UnaryOperator" or e.get("op") not in ("=",)
+                    if e.get("op") == "=":
+                        incr = any(x.k == "DeclRefExpr" and x["decl"]["name"] == t["decl"]["name"]
+                                   for x in e.child(1).walk())
+                    if incr:
+                        names.add(t["decl"]["name"])
+        widen[head.id] = names
 
     def rec(b, ps, visits):
         ps.blocks.append(b.id)
@@ -259,6 +275,10 @@ def summarize(fn, max_visits=2, limit=20000, params=None):
                 if sw is not None:
                     q.facts.append((sw, ("default", tuple(others))))
                     q.events.append(("branch", sw, ("default", tuple(others))))
+            if s.id in widen and visits.get(s.id, 0) >= 1:
+                for name in widen[s.id]:
+                    if name in q.env and q.env[name].kind == "const":
+                        q.env[name] = UNKNOWN
             visits[s.id] = visits.get(s.id, 0) + 1
             rec(s, q, visits)
             visits[s.id] -= 1
